@@ -1,11 +1,9 @@
-(* Packet-access skeleton of bpf/dhcp_fastpath.c : dhcp_fastpath_prog (XDP), as of /repo c10bfec
-   (the 64-byte options-room test stands before the first write).
+(* Packet-access skeleton of bpf/dhcp_fastpath.c : dhcp_fastpath_prog (XDP), as of /repo 4ab203e
+   (c10bfec: the 64-byte options-room test stands before the first write; 4ab203e: ihl != 5 is passed
+   to the slow path, the C still computes udp = ip + ihl*4 afterwards and so does the model).
    Every data_end comparison of parse_packet_headers, get_dhcp_msg_type, extract_circuit_id_fixed,
-   build_dhcp_options and of the main program is an explicit test.  udp = ip + ihl*4 with ihl the low
-   nibble of the first IP byte, any value 0..15, as the C computes it (the program never looks at ihl
-   again: for ihl < 5 the UDP/DHCP area overlaps the IP header, all accesses stay inside the frame
-   and the model performs them on the same flat bytes).  All stores of the reply construction are
-   modelled so that the resulting bytes can be tied.  Statistics are left out.
+   build_dhcp_options and of the main program is an explicit test.  All stores of the reply
+   construction are modelled so that the resulting bytes can be tied.  Statistics are left out.
 
    build_dhcp_options returning -1 is followed in the C by `return XDP_PASS`; the model fuses the two
    into [exit XDP_PASS] at the failing test.  bpf_xdp_adjust_tail is the last thing the program does:
@@ -182,6 +180,7 @@ Definition dhcp_body (mp : maps) (e : env) (dl : N) : M N :=
   ipproto <- rd8 (l3 + 9) ;;
   if negb (ipproto =? 17) then exit XDP_PASS else
   vihl <- rd8 l3 ;;
+  if negb (N.land vihl 15 =? 5) then exit XDP_PASS else
   let udp := l3 + N.land vihl 15 * 4 in
   if udp + 8 >? dl then exit XDP_PASS else
   dport <- rd16 (udp + 2) ;;
